@@ -161,6 +161,7 @@ Fails(ev, r) ==
     [] ev.e = "At" -> AtFails(ev, r)
     [] ev.e = "Blk" -> BlkFails(ev, r)
     [] ev.e = "Acc" -> AccFails(ev, r)
+    [] ev.e = "Stat" -> Bad(ev.fault = 0, "C16", "the analysis of an accepted array faulted")
     [] OTHER -> {<<"ANY", "H:unknown event kind">>}
 
 (* unclaimed conformance fact: byte-exact layout of the formats Wire.tla specifies *)
@@ -176,6 +177,27 @@ WireNote(ev) ==
           /\ (IF same THEN TRUE ELSE PrintT(<<"NOTE", "wire-drift-" \o ev.codec, 1>>))
   ELSE TRUE
 
+(* unclaimed conformance fact: the analysis behind the automatic selection (varintAdaptiveAnalyze and its
+   helpers) against the same statistics computed from the values *)
+NonIncreasing(xs) == \A i \in 1..(Len(xs) - 1) : LLeq(xs[i + 1], xs[i])
+AbsDiff(a, b) == IF LLt(a, b) THEN LSub(b, a) ELSE LSub(a, b)
+MaxDelta(xs) == FoldLeft(LAMBDA acc, i : LMax2(acc, AbsDiff(xs[i], xs[i + 1])), LZero, [i \in 1..(Len(xs) - 1) |-> i])
+StatNote(ev, r) ==
+  IF ev.e = "Stat" /\ ev.fault = 0 /\ r # 0
+  THEN LET xs == Tr[r].xs  n == Len(xs)
+           asc == NonDecreasing(xs)  desc == NonIncreasing(xs)
+           uniq == Cardinality({xs[i] : i \in 1..n})
+           facts == << <<"count", ev.count = n>>, <<"min", ev.min = LSeqMin(xs)>>, <<"max", ev.max = LSeqMax(xs)>>,
+                       <<"range", ev.range = LSub(LSeqMax(xs), LSeqMin(xs))>>,
+                       <<"maxdelta", ev.maxdelta = MaxDelta(xs)>>,
+                       <<"unique", ev.unique = uniq /\ ev.cu = uniq>>,
+                       <<"sorted", (ev.sorted = 1) = asc /\ (ev.rsorted = 1) = (desc /\ ~asc)
+                                   /\ ev.chk = (IF asc THEN 1 ELSE IF desc THEN -1 ELSE 0)>>,
+                       <<"fits", (ev.fits = 1) = LLt(LSeqMax(xs), <<0, 0, 65536>>)>> >>
+       IN PrintT(<<"NOTE", "stat-checked", 1>>)
+          /\ \A k \in 1..Len(facts) : (IF facts[k][2] THEN TRUE ELSE PrintT(<<"NOTE", "stat-drift-" \o facts[k][1], 1>>))
+  ELSE TRUE
+
 Init == l = 1 /\ reg = 0
 Consume ==
   /\ l <= NT
@@ -183,6 +205,7 @@ Consume ==
          fs == Fails(ev, reg)
      IN /\ \A x \in fs : PrintT(<<"REJECT", l, x[1], x[2]>>)
         /\ WireNote(ev)
+        /\ StatNote(ev, reg)
         /\ reg' = IF ev.e = "Enc" THEN l ELSE reg
   /\ l' = l + 1
 Next == Consume
